@@ -241,8 +241,14 @@ func (c *FContextImpl) ResponseHeaders() map[string]string {
 // SetTimeout sets the request timeout. Default is 5 seconds. Returns the same
 // FContext to allow for chaining calls.
 func (c *FContextImpl) SetTimeout(timeout time.Duration) FContext {
+	millis := int64(timeout / time.Millisecond)
+	if millis == 0 && timeout > 0 {
+		// The header carries whole milliseconds and 0 means "no timeout": a
+		// positive timeout below a millisecond must not become unbounded.
+		millis = 1
+	}
 	c.mu.Lock()
-	c.requestHeaders[timeoutHeader] = strconv.FormatInt(int64(timeout/time.Millisecond), 10)
+	c.requestHeaders[timeoutHeader] = strconv.FormatInt(millis, 10)
 	c.mu.Unlock()
 	return c
 }
